@@ -86,9 +86,14 @@ check("C07", "model_checking",
       "TLA+ L1 spec (Construct) + TLC term generation + evaluation with independent primitives + TLC observation-set validation", "§4 C07")
 check("C13", "model_checking",
       "Construct!KeyIdBytes/KeyIdText/KeyText terms evaluated with the independent hash must equal Key::id() bytes and text and the key's PASERK "
-      "text for local/public/secret keys of every backend (generated, boundary, fixture keys), stable across clone and reparse; key-id text "
-      "strictness (33-byte rule) is validated by C09's TextFormat observations.", TERM_NOTE,
-      "TLA+ L1 spec (Construct) + TLC term generation + evaluation with independent primitives + TLC observation-set validation", "§4 C13")
+      "text for local/public/secret keys of every backend (generated, boundary, fixture keys, non-reduced Ed25519 encodings), stable across "
+      "clone and reparse; id values compare / hash as their 33 bytes; id strings of every body length 0..40 and with malformed type headers are "
+      "offered to every backend and id kind. Key ids in use: the L2 deployment model Deploy.tla (verifier selects the key by the id in the "
+      "unverified footer; PASERK key distribution; network attacker) is model-checked (with 3 spec mutants and 3 reachability witnesses), "
+      "TLC-generated behaviours of it are replayed through the real crates with a KeyId-indexed store, and Trace_Deploy validates every "
+      "recorded step against the same actions.", TERM_NOTE,
+      "TLA+ L1 spec (Construct) + TLC term generation + evaluation with independent primitives + TLC observation-set validation; TLA+ L2 spec "
+      "(Deploy) + TLC model checking + TLC simulation -> replay into the implementation -> TLC trace validation", "§4 C13, §11.9")
 
 check("C08", "model_checking",
       "Keys.tla defines, per (version, key kind), which byte strings are keys (length tables, scalar range computed in TLA+, curve membership "
